@@ -54,7 +54,9 @@ impl<W: Write + Send, R: Read + Send> DapTransport for Transport<W, R> {
         let len = content_length.ok_or_else(|| anyhow!("Missing Content-Length header"))?;
         let mut buf = vec![0u8; len];
         self.reader.read_exact(&mut buf)?;
-        let msg: Value = serde_json::from_slice(&buf)?;
+        // a well framed message whose body is not JSON must not end the session: hand `null`
+        // to the session loop, which skips everything that is not a request
+        let msg: Value = serde_json::from_slice(&buf).unwrap_or(Value::Null);
         self.trace("<-", &msg);
         Ok(msg)
     }
